@@ -86,6 +86,23 @@ CHECKS = {
         "flat-dictionary deviation model; macro-related scoping is checked "
         "under C09.",
         "DESIGN.md 3/C05"),
+    "C09": (
+        "exploration",
+        "metamorphic: use-macro vs hand-inlined METAL-free template built "
+        "from one abstract description",
+        "From one abstract description the generator writes a macro library "
+        "with a caller (slots filled / left default / unknown names, TAL "
+        "statements on the use element, same template / other template / "
+        "whole template as macro, extend-macro with a re-offered slot) AND "
+        "the hand-inlined METAL-free template; both are rendered and must "
+        "give the same text / exception class and the same expression call "
+        "log; variable probes after each use check that macro locals stay "
+        "inside and globals get out; a second part checks 'macroname'.",
+        "Both sides are rendered by the code under test: the inlined form "
+        "lies in the domain checked against the reference interpreter by "
+        "C01/C04; generator rules that keep the two forms comparable are "
+        "listed in the check's assumptions.",
+        "DESIGN.md 3/C09"),
     "C11": (
         "fault_enumeration",
         "fault planting with generator-known coordinates + slice / line / "
